@@ -19,7 +19,8 @@ describe(
     "the batch's name set is kept in step with its job list; the submitter removes blockers from the persisted set only for "
     "names of collected results; the first observation of a process exit records the result before is_complete() returns "
     "(so a blocker's outcome is on disk before anyone can act on its completion); the persisted blocker sets have exactly "
-    "four writers; the batch config carries the remaining blockers of the status model.",
+    "four writers; the batch config carries the remaining blockers of the status model."
+    " On resubmission the remaining blockers of a rerun dependent are recomputed on every pass of the closure loop from the closed rerun set.",
     ["shared-filesystem visibility of appended result rows", "Popen.poll() reports exit truthfully"],
     "the end-to-end order over all schedules and batches (which round sees which result); local mode beyond the same JobQueue gate.",
 )
@@ -309,3 +310,10 @@ def c02_10(ctx, r):
     r.check("blocked_by" in mdl.ann_fields and "blocked_by" not in ctx.src(mdl.methods["dict"].node), "blocked_by is a model field and is never dropped on output", key_of(mdl.methods["dict"], "blocked_by kept"), mdl.methods["dict"].loc(), "blocked_by can be dropped from the serialised job")
     hv = mdl.methods.get("handle_blocked_by")
     r.check(hv is not None and ctx.src([n for n in iter_own(hv.node) if isinstance(n, ast.Return)][0].value).replace(" ", "") == "{str(x)forxinvalue}", "integer blockers are normalised to the job-name strings", key_of(hv, "normalise") if hv else "handle_blocked_by", hv.loc() if hv else mdl.module.relpath + ":1", "blocked_by normalisation changed")
+
+
+@rule(P, "C02.11", "T14", "resubmission: a rerun dependent's remaining blockers are recomputed on every closure pass, from the closed rerun set", min_obligations=6)
+def c02_11(ctx, r):
+    from .c13 import c13_5
+
+    c13_5(ctx, r)
